@@ -471,7 +471,7 @@ struct Engine : public vf::Engine {
                 Op o; unsigned x = (unsigned)w.below(100);
                 if (x < 45) { o.kind = X_ALLOC; o.a = (int64_t)w.below(N_SLOTS); o.b = (int64_t)w.below(6); o.c = w.small(1, 120); if (w.chance(1, 30)) o.c = -1 - (int64_t)w.below(60); }
                 else if (x < 80) { o.kind = X_FREE; o.a = (int64_t)w.below(N_SLOTS); }
-                else if (x < 86) { o.kind = X_REALLOC; o.a = (int64_t)w.below(N_SLOTS); o.c = w.small(1, 200); }
+                else if (x < 86) { o.kind = X_REALLOC; o.a = (int64_t)w.below(N_SLOTS); o.c = w.chance(1, 6) ? 0 : w.small(1, 200); }      // also to size 0
                 else if (x < 92 && !misuse) { o.kind = X_SEND; o.a = (int64_t)w.below(N_SLOTS); o.b = (int64_t)w.below(16); }
                 else if (x < 97 && !misuse) o.kind = X_RECV;
                 else if (x < 99 && w.chance(1, 2)) o.kind = X_USERLOCK;
